@@ -41,6 +41,9 @@ func checkC08(c *Ctx, r *Report) {
 	bitmapLengthAgreement(c, r, "C08.R1.bitmap-length", "Len() is short for NSEC / NSEC3 / CSYNC records whose highest type in a window is divisible by 8, and Pack fails for lack of room")
 	r.rule("C08.R2.len-search-walk", 1, "compressionLenSearch visits the labels through NextLabel (escaped dots do not start labels)")
 	walkThroughNextLabel(c, r, "C08.R2.len-search-walk", "compressionLenSearch", "the length walk registers and finds suffixes at escaped dots that the packer never compresses against: Len() comes out too small")
+	r.rule("C08.R3.label-room", 1, "packDomainName's room tests against len(msg) are strict")
+	labelRoomExact(c, r, "C08.R3.label-room", "a name that fits its buffer exactly is refused: PackRR into a buffer of Len(rr) octets fails for a record whose last name is the root")
+	borrow(c, r, c01R7, "C01.R7.uint-pack", "C08.R3.uint-pack-width", 5, "packUintN needs and writes exactly N/8 octets", nil, "a packer that touches octets beyond its field needs room Len() does not count: Pack fails with a buffer error on a valid message, or the next field is overwritten")
 }
 
 func c08Header(c *Ctx, r *Report) {
